@@ -1,6 +1,6 @@
 """C16 — the sampling reservoir reports true counts and favours no stream position."""
 from facts import Sym, path_is, strip_generics, strip_sym, sym_arg, sym_calls, sym_is_call, sym_str, sym_through, sym_walk
-from props.common import arg_syms, atomic_ops, bool_switches, callee_method_name, calls_to, crate_stats, enum_arms, gates, in_cycle, need, nonforeign_calls, one_method, has_panic_path
+from props.common import is_plain_write, arg_syms, atomic_ops, bool_switches, callee_method_name, calls_to, crate_stats, enum_arms, gates, in_cycle, need, nonforeign_calls, one_method, has_panic_path
 
 TITLE = "C16 the sampling reservoir reports true counts and favours no stream position."
 CONFIGS = ["test-profile", "util-storage"]
@@ -90,10 +90,14 @@ def run(ctx):
             un = strip_sym(f["unsampled_len"])
             ln = strip_sym(f["len"])
             ok = sym_is_call(un, "load") and self_field(strip_sym(un[2][0]), "count")
-            alts = ln[1] if ln[0] == "phi" else [ln]
+            if sym_is_call(ln, "Ord::min", "cmp::min", "usize::min"):
+                alts = [strip_sym(x) for x in ln[2]]
+                cmp_ok = True
+            else:
+                alts = ln[1] if ln[0] == "phi" else [ln]
+                cmp_ok = any(strip_sym(dd)[0] == "bin" and strip_sym(dd)[1] in ("Gt", "Lt", "Ge", "Le") for bb, dd, t_, f_ in bool_switches(drain.body))
             ok = ok and len(alts) == 2 and any(sym_is_call(strip_sym(a), "len") and "'values'" in repr(a) for a in alts) and any(repr(strip_sym(a)) == repr(un) for a in alts)
             ok = ok and const_int(f["idx"]) == 0
-            cmp_ok = any(strip_sym(dd)[0] == "bin" and strip_sym(dd)[1] in ("Gt", "Lt", "Ge", "Le") for bb, dd, t_, f_ in bool_switches(drain.body))
             ok = ok and cmp_ok
         chk.ob("C16.b", drain.path, ok, "drain: unsampled_len = count.load(); len = min(count, capacity); idx = 0" if ok else "drain does not clamp its length to min(count, capacity)", drain.loc())
     D = f"{R}::Drain"
@@ -110,12 +114,25 @@ def run(ctx):
     if nx:
         b = nx.body
         lo = [o for o in atomic_ops(nx) if o[1] == "load"]
-        ok = len(lo) == 1 and any(lab is True and strip_sym(dd)[0] == "bin" and strip_sym(dd)[1] == "Lt" and "'idx'" in repr(strip_sym(dd)[2]) and "'len'" in repr(strip_sym(dd)[3]) for dd, lab in gates(b, lo[0][0].bb))
+        from facts import PredFlow
+
+        def cbool(x):
+            x = strip_sym(x)
+            if isinstance(x, tuple) and x and x[0] == "bin" and x[1] in ("Lt", "Le", "Gt", "Ge"):
+                l_, r_ = repr(strip_sym(x[2])), repr(strip_sym(x[3]))
+                if "'idx'" in l_ and "'len'" in r_ and "'idx'" not in r_:
+                    return {"Lt": ("P", "N"), "Ge": ("N", "P")}.get(x[1])
+                if "'len'" in l_ and "'idx'" in r_ and "'idx'" not in l_:
+                    return {"Gt": ("P", "N"), "Le": ("N", "P")}.get(x[1])
+            return None
+
+        pf = PredFlow(nx, lambda subj, v: None, cbool)  # P = "idx < len"
+        ok = len(lo) == 1 and pf.at(lo[0][0].bb) == "P"
         chk.ob("C16.b", nx.path, ok, "next() yields values[idx] only while idx < len" if ok else "Drain::next can yield beyond min(count, capacity)", nx.loc())
     dd_ = (u.method(D, "drop", "Drop") or [None])[0]
     if dd_:
         ops = atomic_ops(dd_)
-        ok = len(ops) == 1 and ops[0][1] == "store" and const_int(ops[0][3][1]) == 0 and "'count'" in repr(ops[0][2]) and not [r for r in dd_.body.return_blocks() if r in dd_.body.reachable(0, cut={ops[0][0].bb})]
+        ok = len(ops) == 1 and is_plain_write(ops[0]) and const_int(ops[0][3][1]) == 0 and "'count'" in repr(ops[0][2]) and not [r for r in dd_.body.return_blocks() if r in dd_.body.reachable(0, cut={ops[0][0].bb})]
         chk.ob("C16.b", dd_.path, ok, "dropping a Drain resets the drained side's count to 0" if ok else "Drop for Drain does not reset the drained reservoir's count: the next drain re-yields old values / wrong rate", dd_.loc())
     else:
         chk.unrecognised("C16.b", "<anchor> Drop for Drain", "missing")
@@ -124,15 +141,20 @@ def run(ctx):
     pushf = one_method(chk, "C16.b", u, ASR, "push")
     def side_table(f, flag_pred):
         """{True: field, False: field}: which side is used when the flag is true / false"""
+        from facts import alternatives
+
         b = f.body
         out = {}
+        sy_ = Sym(f)
         for c in nonforeign_calls(f):
             if c.fn is f and c.is_("Reservoir::push", "Reservoir::drain"):
-                side = strip_sym(arg_syms(c)[0])
-                fld = side[2] if side[0] == "field" else None
-                for dd, lab in gates(b, c.bb):
-                    if isinstance(lab, bool) and flag_pred(strip_sym(dd)):
-                        out[lab] = fld
+                # the side is chosen either by branching around the call or by selecting the receiver first
+                for bb, side, *_ in alternatives(f, c.args[0], c.bb, sy_):
+                    side = strip_sym(side)
+                    fld = side[2] if side[0] == "field" else None
+                    for dd, lab in gates(b, bb):
+                        if isinstance(lab, bool) and flag_pred(strip_sym(dd)):
+                            out[lab] = fld
         return out
     if cons and pushf:
         pt = side_table(pushf, lambda dd: sym_is_call(dd, "load") and "'use_primary'" in repr(dd))
@@ -141,10 +163,10 @@ def run(ctx):
         chk.ob("C16.b", f"{ASR} [push ~ consume side table]", ok, "use_primary == true <-> primary in both push and consume (consume drains the side that was active)" if ok else f"push uses {pt}, consume drains {ct}: consume must drain the side that pushes were going to before the flip", cons.loc())
         b = cons.body
         lk = [c for c in nonforeign_calls(cons) if c.fn is cons and c.is_("Mutex<T>::lock")]
-        st = [o for o in atomic_ops(cons) if o[1] == "store" and "'use_primary'" in repr(o[2])]
+        st = [o for o in atomic_ops(cons) if is_plain_write(o) and "'use_primary'" in repr(o[2])]
         dr = [c for c in nonforeign_calls(cons) if c.fn is cons and c.is_("Reservoir::drain")]
         cb = [c for c in nonforeign_calls(cons) if c.fn is cons and c.is_("FnMut::call_mut", "FnOnce::call_once") and is_param(sym_through(arg_syms(c)[0]), 1)]
-        ok = len(lk) == 1 and len(st) == 1 and len(dr) == 2 and len(cb) == 1 and all(b.dominates(lk[0].bb, x.bb) for x in [st[0][0]] + dr + cb)
+        ok = len(lk) == 1 and len(st) == 1 and len(dr) in (1, 2) and len(cb) == 1 and all(b.dominates(lk[0].bb, x.bb) for x in [st[0][0]] + dr + cb)
         if ok:
             v = strip_sym(st[0][3][1])
             ok = v[0] == "un" and v[1] == "Not" and sym_is_call(strip_sym(v[2]), "load") and all(b.dominates(st[0][0].bb, d_.bb) for d_ in dr)
